@@ -194,8 +194,12 @@ class RefExecutor:
         }
 
     def run(self, source=None, filename=None, fault=None):
-        filename = filename or self.main
-        source = self.files[filename] if source is None else source
+        if source is None:
+            filename = filename or self.main
+            source = self.files[filename]
+        else:
+            # instructor-supplied code: pedal compiles it under the instructor file's name
+            filename = filename or 'instructor.py'
 
         def thunk():
             exec(compile(source, filename, 'exec'), self.ns)
